@@ -27,7 +27,7 @@
 (***************************************************************************)
 EXTENDS Integers, Sequences, FiniteSets, TLC, Json
 
-CONSTANTS Literals, ExploreOps, ProbeOps, Depth, GetterCap, Emit,
+CONSTANTS Literals, ExploreOps, ProbeOps, Depth, GetterCap, Emit, ProtoIdx,
           SetLengthGuard   \* TRUE: Array::set_length takes its shortcut only when no element can lie at or above the
                            \* new length (proposal C14-1); FALSE: the pinned tree (shortcut whenever the shape allows)
 
